@@ -21,8 +21,25 @@ package modzip
 //@   ensures len(cf.Invalid) > 0
 //@   assigns cf.Invalid, allelems(FileError)
 
+// strToFold: the case-folding key (unicode.SimpleFold minimum per rune) is a
+// function of the string; its definition is not interpreted here
+//@ func strToFold
+//@   assumed A-int: case folding is a pure function of the path (unicode tables)
+//@   pure
+
+// (P) C15: "case-colliding names, duplicate names": a path whose case-folded
+// key is already recorded is accepted only if it is the same directory again;
+// a different spelling, a file/directory clash and a repeated file are errors.
+// An accepted path is recorded under its key, and recorded entries are never
+// changed or dropped (so a later clash with it is still seen).
 //@ func (collisionChecker).check
-//@   assumed A-int (Tier B): case-fold collision bookkeeping; only its frame is used
+//@   strings abstract
+//@   requires cc != nil
+//@   ensures [collision] old(inDom(cc, strToFold(p))) && old(cc[strToFold(p)].path) != p ==> result != nil
+//@   ensures [filedir] old(inDom(cc, strToFold(p))) && old(cc[strToFold(p)].isDir) != isDir ==> result != nil
+//@   ensures [duplicate] old(inDom(cc, strToFold(p))) && !isDir ==> result != nil
+//@   ensures [recorded] result == nil ==> inDom(cc, strToFold(p)) && cc[strToFold(p)].path == p && cc[strToFold(p)].isDir == isDir
+//@   ensures [monotone] forall k string :: old(inDom(cc, k)) ==> inDom(cc, k) && cc[k].path == old(cc[k].path) && cc[k].isDir == old(cc[k].isDir)
 //@   assigns mapof(cc)
 
 //@ func splitCUEMod
